@@ -478,12 +478,25 @@ def arg_sym(pos, s):
     return sym("a%d_%s" % (pos, SNAME[s]), s)
 
 
+U12 = [s_ for s_ in U14 if not is_fn(s_)] + [F(I, I)]
+U5 = [B, I, V(8), A(I, I), F(I, I)]
+TERNARY_OR_NARY = {"ite", "arrayStore", "strIndexOf", "strSubstr", "strReplace", "and", "or", "plus", "times",
+                   "strConcat", "function", "arrayValue"}
+
+
 def grid_a_cases(o, tier):
+    """quick tier: arity 3 over 12 sorts (11 + one function sort) for the operators that take three or
+    more arguments, over 5 sorts for the others (where a third argument is only an extra one);
+    thorough tier: all 14 sorts everywhere"""
     small, big = payload_corners(o)
-    for n in range(0, 4):
+    for n in range(0, 3):
         for ss in itertools.product(U14, repeat=n):
-            for p in (small if n <= 2 else big):
+            for p in small:
                 yield ss, p
+    u3 = U14 if tier != "quick" else (U12 if o in TERNARY_OR_NARY else U5)
+    for ss in itertools.product(u3, repeat=3):
+        for p in big:
+            yield ss, p
     if o in NARY:
         for n in (4, 5):
             for ss in itertools.product(U4 + ([S] if o == "strConcat" else []), repeat=n):
@@ -528,3 +541,1428 @@ def run_grid_a_op(job):
         raw = (o, p, tuple(arg_sym(i, s) for i, s in enumerate(ss)))
         out.append((ss, p, raw, res))
     return out
+
+
+# =====================================================================================
+# grid B: every FormulaManager constructor
+#   model_*  : the raw tree the constructor builds (mirror of pysmt/formula.py, incl. its own
+#              assertions/checks -> Reject) -- checked against the real result (structure) and
+#              against typeOf/wt of the Lean model
+#   crank    : the rank of the constructor read as an SMT-LIB operator (independent oracle S)
+# =====================================================================================
+class Reject(Exception):
+    """a check of the constructor itself (before/around create_node) refuses the call"""
+
+
+TRUE_T = ("boolConst", ("b", True), ())
+FALSE_T = ("boolConst", ("b", False), ())
+
+
+def int_t(v):
+    return ("intConst", ("i", v), ())
+
+
+def real_t(v):
+    return ("realConst", ("q", Fraction(v)), ())
+
+
+def str_t(v):
+    return ("strConst", ("s", v), ())
+
+
+def bv_t(v, w):
+    return ("bvConst", ("v", v, w), ())
+
+
+BV_OPERATOR_NAMES = BV_UN | BV_BIN | {"bvConcat", "bvExtract", "bvRol", "bvRor", "bvZext", "bvSext", "bvComp"}
+CONST_OPS = {"boolConst", "intConst", "realConst", "strConst", "bvConst", "algebraicConst"}
+
+
+def sym_sort(t):
+    return t[1][2] if t[0] == "symbol" else None
+
+
+def bvw(t):
+    """mirror of FNode.bv_width"""
+    o, p, ch = t
+    if o == "bvConst":
+        return p[2]
+    if o == "symbol":
+        if p[2][0] != "V":
+            raise Reject("bv_width: symbol is not a bit-vector")
+        return p[2][1]
+    if o == "function":
+        ret = p[2][1]
+        if ret[0] != "V":
+            raise Reject("bv_width: function does not return a bit-vector")
+        return ret[1]
+    if o == "ite":
+        n = ch[1]
+        while n[0] == "ite":
+            n = n[2][1]
+        return bvw(n)
+    if o == "arraySelect":
+        s = sym_sort(ch[0])
+        if s is None or s[0] != "A" or s[2][0] != "V":
+            raise Reject("bv_width: select over a non-BV array")
+        return s[2][1]
+    if o in BV_OPERATOR_NAMES:
+        if p is None or p[0] != "n" or len(p) < 2:
+            raise Reject("bv_width: no cached width")
+        return p[1]
+    raise Reject("bv_width: not a bit-vector operator")
+
+
+def is_const(t):
+    if t[0] in CONST_OPS:
+        return True
+    if t[0] == "arrayValue":
+        return all(is_const(c) for c in t[2])
+    return False
+
+
+def m_not(a):
+    return a[2][0] if a[0] == "not" else node("not", None, a)
+
+
+def m_nary(o, args, empty):
+    if len(args) == 0:
+        if empty is None:
+            raise Reject("no arguments")
+        return empty
+    if len(args) == 1:
+        return args[0]
+    return node(o, None, *args)
+
+
+def m_bvbin(o, a, b):
+    return node(o, ints(bvw(a)), a, b)
+
+
+def m_bvfold(o, args):
+    if len(args) == 0:
+        raise Reject("no arguments")
+    res = args[0]
+    for a in args[1:]:
+        res = node(o, ints(bvw(res)), res, a)
+    return res
+
+
+def m_concat(args):
+    if len(args) < 2:
+        raise Reject("BVConcat needs two arguments")
+    base = node("bvConcat", ints(bvw(args[0]) + bvw(args[1])), args[0], args[1])
+    for e in args[2:]:
+        base = node("bvConcat", ints(bvw(base) + bvw(e)), base, e)
+    return base
+
+
+def m_extract(a, start, end):
+    if end is None:
+        end = bvw(a) - 1
+    if not (isinstance(start, int) and isinstance(end, int)) or not (end >= start and start >= 0):
+        raise Reject("BVExtract: assertion on start/end")
+    size = end - start + 1
+    if not size <= bvw(a):
+        raise Reject("BVExtract: size exceeds width")
+    return node("bvExtract", ints(size, start, end), a)
+
+
+def m_bvconst(value, width):
+    if isinstance(value, str):
+        if value.startswith("#b"):
+            sw = len(value) - 2
+            try:
+                value = int(value[2:], 2)
+            except ValueError:
+                raise Reject("BV: bad binary string")
+        elif all(v in "01" for v in value):
+            sw = len(value)
+            try:
+                value = int(value, 2)
+            except ValueError:
+                raise Reject("BV: empty string")
+        else:
+            raise Reject("BV: not a binary string")
+        if width is not None and width != sw:
+            raise Reject("BV: width mismatch")
+        width = sw
+    if width is None:
+        raise Reject("BV: no width")
+    if width <= 0:
+        raise Reject("BV: width is not positive")
+    if type(value) is not int:
+        raise Reject("BV: value is not an integer")
+    if value < 0:
+        raise Reject("BV: negative value")
+    try:
+        if value >= 2 ** width:
+            raise Reject("BV: value does not fit")
+    except (TypeError, ValueError):
+        raise Reject("BV: bad width")
+    return bv_t(value, width)
+
+
+def m_sbv(value, width):
+    if type(value) is int:
+        if width is None:
+            raise Reject("SBV: no width")
+        try:
+            lo, hi = -(2 ** (width - 1)), 2 ** (width - 1) - 1
+        except (TypeError, ValueError):
+            raise Reject("SBV: bad width")
+        if isinstance(lo, float) or value < lo or value > hi:
+            raise Reject("SBV: out of range")
+        return m_bvconst(value if value >= 0 else 2 ** width + value, width)
+    return m_bvconst(value, width)
+
+
+def m_shift(o, a, b):
+    if type(b) is int:
+        b = m_bvconst(b, bvw(a))
+    elif not isinstance(b, tuple):
+        raise Reject("shift amount is not a term")
+    return node(o, ints(bvw(a)), a, b)
+
+
+def m_minmax(le, args, is_min):
+    if len(args) == 0:
+        raise Reject("Min/Max of nothing")
+    if len(args) == 1:
+        return args[0]
+    if len(args) == 2:
+        a, b = args
+        return node("ite", None, le(a, b), a, b) if is_min else node("ite", None, le(a, b), b, a)
+    h = len(args) // 2
+    return m_minmax(le, [m_minmax(le, args[:h], is_min), m_minmax(le, args[h:], is_min)], is_min)
+
+
+def m_atmostone(args):
+    cs = []
+    for i, e in enumerate(args[:-1], start=1):
+        cs.append(node("implies", None, e, m_not(m_nary("or", args[i:], FALSE_T))))
+    return m_nary("and", cs, TRUE_T)
+
+
+def impl_is_bool(t):
+    """what `env.stc.get_type(t).is_bool_type()` answers for the argument terms of the grid"""
+    s = sym_sort(t)
+    if s is not None:
+        return s == B
+    return t[0] in ("boolConst", "not", "and", "or", "iff", "implies", "equals", "le", "lt")
+
+
+def m_eq_or_iff(a, b):
+    return node("iff", None, a, b) if impl_is_bool(a) else node("equals", None, a, b)
+
+
+def m_smod(s, t):
+    m = bvw(s)
+    zero1, one1 = bv_t(0, 1), bv_t(1, 1)
+
+    def eq(x, y):
+        return node("equals", None, x, y)
+
+    def neg(x):
+        return node("bvNeg", ints(bvw(x)), x)
+
+    def ite(c, x, y):
+        return node("ite", None, c, x, y)
+    msb_s = m_extract(s, m - 1, m - 1)
+    msb_t = m_extract(t, m - 1, m - 1)
+    abs_s = ite(eq(msb_s, zero1), s, neg(s))
+    abs_t = ite(eq(msb_t, zero1), t, neg(t))
+    u = m_bvbin("bvUrem", abs_s, abs_t)
+    cond1 = eq(u, m_bvconst(0, m))
+    cond2 = node("and", None, eq(msb_s, zero1), eq(msb_t, zero1))
+    cond3 = node("and", None, eq(msb_s, one1), eq(msb_t, zero1))
+    cond4 = node("and", None, eq(msb_s, zero1), eq(msb_t, one1))
+    case3 = m_bvfold("bvAdd", [neg(u), t])
+    case4 = m_bvfold("bvAdd", [u, t])
+    case5 = neg(u)
+    return ite(node("or", None, cond1, cond2), u, ite(cond3, case3, ite(cond4, case4, case5)))
+
+
+def le_t(a, b):
+    return node("le", None, a, b)
+
+
+def model(name, args, extra):
+    """raw tree built by FormulaManager.<name>(args..., extra...) or Reject"""
+    a = list(args)
+    n = len(a)
+    simple1 = {"StrLength": "strLength", "StrToInt": "strToInt", "IntToStr": "intToStr", "BVToNatural": "bvToNatural"}
+    simple2 = {"Implies": "implies", "Iff": "iff", "Minus": "minus", "Equals": "equals", "LE": "le", "LT": "lt",
+               "BVULT": "bvUlt", "BVULE": "bvUle", "BVSLT": "bvSlt", "BVSLE": "bvSle", "StrContains": "strContains",
+               "StrPrefixOf": "strPrefixOf", "StrSuffixOf": "strSuffixOf", "StrCharAt": "strCharAt",
+               "Select": "arraySelect"}
+    swapped2 = {"GE": "le", "GT": "lt", "BVUGT": "bvUlt", "BVUGE": "bvUle", "BVSGT": "bvSlt", "BVSGE": "bvSle"}
+    simple3 = {"Ite": "ite", "StrIndexOf": "strIndexOf", "StrReplace": "strReplace", "StrSubstr": "strSubstr",
+               "Store": "arrayStore"}
+    bvbin = {"BVXor": "bvXor", "BVSub": "bvSub", "BVUDiv": "bvUdiv", "BVURem": "bvUrem", "BVSDiv": "bvSdiv",
+             "BVSRem": "bvSrem"}
+    bvfold = {"BVAnd": "bvAnd", "BVOr": "bvOr", "BVAdd": "bvAdd", "BVMul": "bvMul"}
+    if name in simple1:
+        return node(simple1[name], None, a[0])
+    if name in simple2:
+        return node(simple2[name], None, a[0], a[1])
+    if name in swapped2:
+        return node(swapped2[name], None, a[1], a[0])
+    if name in simple3:
+        return node(simple3[name], None, *a)
+    if name in bvbin:
+        return m_bvbin(bvbin[name], a[0], a[1])
+    if name in bvfold:
+        return m_bvfold(bvfold[name], a)
+    if name == "Not":
+        return m_not(a[0])
+    if name == "And":
+        return m_nary("and", a, TRUE_T)
+    if name == "Or":
+        return m_nary("or", a, FALSE_T)
+    if name == "Plus":
+        return m_nary("plus", a, None)
+    if name == "Times":
+        return m_nary("times", a, None)
+    if name == "StrConcat":
+        if n <= 1:
+            raise Reject("StrConcat needs two arguments")
+        return node("strConcat", None, *a)
+    if name == "NotEquals":
+        return m_not(node("equals", None, a[0], a[1]))
+    if name == "Xor":
+        return m_not(node("iff", None, a[0], a[1]))
+    if name == "EqualsOrIff":
+        return m_eq_or_iff(a[0], a[1])
+    if name == "AllDifferent":
+        res = []
+        for i, x in enumerate(a):
+            for y in a[i + 1:]:
+                res.append(m_not(m_eq_or_iff(x, y)))
+        return m_nary("and", res, TRUE_T)
+    if name == "AtMostOne":
+        return m_atmostone(a)
+    if name == "ExactlyOne":
+        return m_nary("and", [m_nary("or", a, FALSE_T), m_atmostone(a)], TRUE_T)
+    if name in ("Min", "Max"):
+        return m_minmax(le_t, a, name == "Min")
+    if name in ("MinBV", "MaxBV"):
+        o = "bvSle" if extra[0] else "bvUle"
+        return m_minmax(lambda x, y: node(o, None, x, y), a, name == "MinBV")
+    if name == "ToReal":
+        s = sym_sort(a[0])
+        if s == R:
+            return a[0]
+        if s == I:
+            return node("toReal", None, a[0])
+        raise Reject("ToReal: argument is neither Int nor Real")
+    if name == "Div":
+        return node("div", None, a[0], a[1])       # arguments are symbols: no constant rewriting
+    if name == "Pow":
+        base, ex = a
+        if not is_const(ex):
+            raise Reject("Pow: exponent is not a constant")
+        if is_const(base):
+            raise Reject("?")                      # evaluated by python arithmetic: compared by value below
+        return node("pow", None, base, ex)
+    if name in ("BVNot", "BVNeg"):
+        return node("bvNot" if name == "BVNot" else "bvNeg", ints(bvw(a[0])), a[0])
+    if name == "BVComp":
+        return node("bvComp", ints(1), a[0], a[1])
+    if name in ("BVNand", "BVNor", "BVXnor"):
+        inner = {"BVNand": lambda: m_bvfold("bvAnd", a), "BVNor": lambda: m_bvfold("bvOr", a),
+                 "BVXnor": lambda: m_bvbin("bvXor", a[0], a[1])}[name]()
+        return node("bvNot", ints(bvw(inner)), inner)
+    if name == "BVSMod":
+        return m_smod(a[0], a[1])
+    if name == "BVConcat":
+        return m_concat(a)
+    if name == "BVExtract":
+        return m_extract(a[0], extra[0], extra[1])
+    if name in ("BVRol", "BVRor"):
+        if type(extra[0]) is not int:
+            raise Reject("rotate: steps is not an integer")
+        return node("bvRol" if name == "BVRol" else "bvRor", ints(bvw(a[0]), extra[0]), a[0])
+    if name in ("BVZExt", "BVSExt"):
+        if type(extra[0]) is not int:
+            raise Reject("extend: increase is not an integer")
+        return node("bvZext" if name == "BVZExt" else "bvSext", ints(bvw(a[0]) + extra[0], extra[0]), a[0])
+    if name == "BVRepeat":
+        if extra[0] < 1:
+            raise Reject("BVRepeat: count below one")
+        res = a[0]
+        for _ in range(extra[0] - 1):
+            res = m_concat([res, a[0]])
+        return res
+    if name in ("BVLShl", "BVLShr", "BVAShr"):
+        o = {"BVLShl": "bvLshl", "BVLShr": "bvLshr", "BVAShr": "bvAshr"}[name]
+        return m_shift(o, a[0], a[1] if n == 2 else extra[0])
+    if name == "Function":
+        f = extra[0]                # raw symbol
+        if n == 0:
+            return f
+        fs = sym_sort(f)
+        if not is_fn(fs):
+            raise Reject("Function: name has no parameter types")
+        if n != len(fs[2]):
+            raise Reject("Function: wrong number of parameters")
+        return node("function", ("y", f[1][1], fs), *a)
+    if name in ("ForAll", "Exists"):
+        vs = extra[0]               # list of raw trees
+        if len(vs) == 0:
+            return a[0]
+        if all(v[0] == "symbol" for v in vs):
+            pl = ("Q",) + tuple((v[1][1], v[1][2]) for v in vs)
+        else:
+            pl = ("Q!",) + tuple((show_raw(v),) for v in vs)
+        return node("forall" if name == "ForAll" else "exists", pl, a[0])
+    if name == "Array":
+        idx, assigned = extra
+        if idx is None:
+            raise Reject("Array: idx_type is not a type")
+        out = [a[0]]
+        if assigned:
+            for k, v in assigned:
+                if not is_const(k):
+                    raise Reject("Array: index is not a constant")
+            out = None                  # argument order = CPython id() order: compared as a set below
+        return ("arrayValue", ("t", idx), tuple(out)) if out is not None else ("arrayValue?", ("t", idx), (a[0], assigned))
+    raise KeyError(name)
+
+
+def numeric(s):
+    return s in (I, R)
+
+
+def same(ss):
+    return all(s == ss[0] for s in ss)
+
+
+def is_bv(s):
+    return s is not None and s[0] == "V"
+
+
+def crank(name, ss, extra):
+    """sort of FormulaManager.<name> read as an SMT-LIB operator on arguments of sorts ss
+    (None: ill-sorted).  Independent of pysmt/type_checker.py."""
+    n = len(ss)
+    if any(s is None or is_fn(s) for s in ss):
+        return None
+    if name in ("And", "Or", "AtMostOne", "ExactlyOne"):
+        return B if all(s == B for s in ss) else None
+    if name == "Not":
+        return B if ss == [B] else None
+    if name in ("Implies", "Iff", "Xor"):
+        return B if ss == [B, B] else None
+    if name in ("Plus", "Times", "Min", "Max"):
+        return ss[0] if n >= 1 and numeric(ss[0]) and same(ss) else None
+    if name in ("Minus", "Div"):
+        return ss[0] if n == 2 and numeric(ss[0]) and same(ss) else None
+    if name in ("LE", "LT", "GE", "GT"):
+        return B if n == 2 and numeric(ss[0]) and same(ss) else None
+    if name in ("Equals", "NotEquals"):
+        return B if n == 2 and same(ss) and ss[0] != B else None
+    if name == "EqualsOrIff":
+        return B if n == 2 and same(ss) else None
+    if name == "AllDifferent":               # distinct
+        return B if n == 0 or same(ss) else None
+    if name == "Ite":
+        return ss[1] if n == 3 and ss[0] == B and ss[1] == ss[2] else None
+    if name == "ToReal":                     # documented: the cast of a Real is the identity
+        return R if ss in ([I], [R]) else None
+    if name == "Pow":                        # documented precondition: the exponent is a constant
+        return R if n == 2 and numeric(ss[0]) and same(ss) and extra and extra[0] else None
+    if name in ("BVNot", "BVNeg"):
+        return ss[0] if n == 1 and is_bv(ss[0]) else None
+    if name in ("BVAnd", "BVOr", "BVAdd", "BVMul", "MinBV", "MaxBV"):
+        return ss[0] if n >= 1 and is_bv(ss[0]) and same(ss) else None
+    if name in ("BVXor", "BVSub", "BVUDiv", "BVURem", "BVSDiv", "BVSRem", "BVNand", "BVNor", "BVXnor", "BVSMod"):
+        return ss[0] if n == 2 and is_bv(ss[0]) and same(ss) else None
+    if name in ("BVLShl", "BVLShr", "BVAShr"):
+        if n == 2:
+            return ss[0] if is_bv(ss[0]) and same(ss) else None
+        k = extra[0]                         # integer amount: the constant (_ bv<k> w)
+        return ss[0] if n == 1 and is_bv(ss[0]) and type(k) is int and 0 <= k < 2 ** ss[0][1] else None
+    if name in ("BVULT", "BVULE", "BVUGT", "BVUGE", "BVSLT", "BVSLE", "BVSGT", "BVSGE"):
+        return B if n == 2 and is_bv(ss[0]) and same(ss) else None
+    if name == "BVComp":
+        return V(1) if n == 2 and is_bv(ss[0]) and same(ss) else None
+    if name == "BVConcat":
+        return V(sum(s[1] for s in ss)) if n >= 2 and all(is_bv(s) for s in ss) else None
+    if name == "BVExtract":
+        if n != 1 or not is_bv(ss[0]):
+            return None
+        start, end = extra
+        if end is None:
+            end = ss[0][1] - 1
+        return V(end - start + 1) if _nat(start) and _nat(end) and start <= end < ss[0][1] else None
+    if name in ("BVRol", "BVRor"):
+        return ss[0] if n == 1 and is_bv(ss[0]) and _nat(extra[0]) else None
+    if name in ("BVZExt", "BVSExt"):
+        return V(ss[0][1] + extra[0]) if n == 1 and is_bv(ss[0]) and _nat(extra[0]) else None
+    if name == "BVRepeat":                   # (_ repeat i), i >= 1
+        return V(ss[0][1] * extra[0]) if n == 1 and is_bv(ss[0]) and _nat(extra[0]) and extra[0] >= 1 else None
+    if name == "BVToNatural":
+        return I if n == 1 and is_bv(ss[0]) else None
+    if name in ("StrLength", "StrToInt"):
+        return I if ss == [S] else None
+    if name == "IntToStr":
+        return S if ss == [I] else None
+    if name == "StrConcat":
+        return S if n >= 2 and all(s == S for s in ss) else None
+    if name in ("StrContains", "StrPrefixOf", "StrSuffixOf"):
+        return B if ss == [S, S] else None
+    if name == "StrIndexOf":
+        return I if ss == [S, S, I] else None
+    if name == "StrReplace":
+        return S if ss == [S, S, S] else None
+    if name == "StrSubstr":
+        return S if ss == [S, I, I] else None
+    if name == "StrCharAt":
+        return S if ss == [S, I] else None
+    if name == "Select":
+        return ss[0][2] if n == 2 and ss[0][0] == "A" and ss[0][1] == ss[1] else None
+    if name == "Store":
+        return ss[0] if n == 3 and ss[0][0] == "A" and ss[0][1] == ss[1] and ss[0][2] == ss[2] else None
+    if name == "Function":
+        fs = sym_sort(extra[0])
+        if not is_fn(fs):
+            return fs if n == 0 else None    # a constant "applied" to nothing is the constant
+        return fs[1] if tuple(ss) == tuple(fs[2]) else None
+    if name in ("ForAll", "Exists"):
+        vs = extra[0]
+        if any(v[0] != "symbol" or is_fn(sym_sort(v)) for v in vs):
+            return None
+        return B if ss == [B] else None      # an empty binder list leaves the body: it must still be a formula
+    if name == "Array":
+        idx, assigned = extra
+        if idx is None or n != 1:
+            return None
+        for k, v in (assigned or []):
+            # an array *value*: keys are constants of the index sort (documented precondition)
+            if not is_const(k) or sort_of(k) != idx or sort_of(v) != ss[0]:
+                return None
+        return A(idx, ss[0])
+    raise KeyError(name)
+
+
+# ---------------------------------------------------------------- grid B: cases
+UN_CTORS = ["Not", "ToReal", "BVNot", "BVNeg", "StrLength", "StrToInt", "IntToStr", "BVToNatural"]
+BIN_CTORS = ["Implies", "Iff", "Minus", "Div", "Equals", "NotEquals", "GE", "GT", "LE", "LT", "Xor", "EqualsOrIff",
+             "BVXor", "BVULT", "BVUGT", "BVULE", "BVUGE", "BVSub", "BVUDiv", "BVURem", "BVLShl", "BVLShr", "BVSLT",
+             "BVSLE", "BVComp", "BVSDiv", "BVSRem", "BVAShr", "BVNand", "BVNor", "BVXnor", "BVSGT", "BVSGE", "BVSMod",
+             "StrContains", "StrPrefixOf", "StrSuffixOf", "StrCharAt", "Select"]
+TER_CTORS = ["Ite", "StrIndexOf", "StrReplace", "StrSubstr", "Store"]
+NARY_CTORS = ["And", "Or", "Plus", "Times", "AtMostOne", "ExactlyOne", "AllDifferent", "Min", "Max", "BVAnd", "BVOr",
+              "BVAdd", "BVMul", "BVConcat", "StrConcat", "MinBV", "MaxBV"]
+INT_CTORS = ["BVExtract", "BVRol", "BVRor", "BVZExt", "BVSExt", "BVRepeat", "BVLShl", "BVLShr", "BVAShr"]
+OTHER_CTORS = ["Function", "ForAll", "Exists", "Array", "Pow"]
+ALL_GRID_CTORS = sorted(set(UN_CTORS + BIN_CTORS + TER_CTORS + NARY_CTORS + INT_CTORS + OTHER_CTORS))
+U6 = [B, I, V(8), A(I, I), F(I, I), S]
+
+
+def arg_syms(ss):
+    return tuple(arg_sym(i, s) for i, s in enumerate(ss))
+
+
+def width_corners(s):
+    w = s[1] if is_bv(s) else 8
+    return w
+
+
+def grid_b_cases(name, tier):
+    """all (args, extra) of one constructor; args are raw leaves (symbols/constants)"""
+    quick = tier == "quick"
+    if name in UN_CTORS:
+        for ss in itertools.product(U14, repeat=1):
+            yield arg_syms(ss), ()
+    if name in BIN_CTORS:
+        for ss in itertools.product(U14, repeat=2):
+            yield arg_syms(ss), ()
+    if name in TER_CTORS:
+        for ss in itertools.product(U14, repeat=3):
+            yield arg_syms(ss), ()
+    if name in NARY_CTORS:
+        signs = [(False,), (True,)] if name in ("MinBV", "MaxBV") else [()]
+        for ex in signs:
+            for n in range(0, 4):
+                uni = U14 if (n < 3 or not quick or name in ("And", "Plus", "BVAdd", "BVConcat", "AllDifferent")) else U6
+                for ss in itertools.product(uni, repeat=n):
+                    yield arg_syms(ss), ex
+            for n in (4, 5):
+                for ss in itertools.product(U4 + ([S] if name == "StrConcat" else []), repeat=n):
+                    yield arg_syms(ss), ex
+    if name == "BVExtract":
+        for s in U14:
+            w = width_corners(s)
+            cs = sorted({0, 1, w - 1, w, w + 1, -1})
+            for st in cs:
+                for en in cs + [None]:
+                    yield arg_syms((s,)), (st, en)
+            yield arg_syms((s,)), (0, "1")
+    if name in ("BVRol", "BVRor", "BVZExt", "BVSExt"):
+        for s in U14:
+            w = width_corners(s)
+            for k in sorted({0, 1, w - 1, w, w + 1, 2 * w + 1, -1, -w, -w - 1}) + ["1", 1.0]:
+                yield arg_syms((s,)), (k,)
+    if name == "BVRepeat":
+        for s in U14:
+            for k in (-1, 0, 1, 2, 3):
+                yield arg_syms((s,)), (k,)
+    if name in ("BVLShl", "BVLShr", "BVAShr"):
+        for s in U14:
+            w = width_corners(s)
+            for k in sorted({0, 1, w - 1, w, 2 ** w - 1, 2 ** w, -1}):
+                yield arg_syms((s,)), (k,)
+    if name == "Function":
+        for fname, fs in FN_SYMS + [("c_Int", I)]:
+            for n in range(0, 4):
+                uni = U14 if (n < 3 or not quick) else U6 + [B, CS]
+                for ss in itertools.product(uni, repeat=n):
+                    yield arg_syms(ss), (sym(fname, fs),)
+    if name in ("ForAll", "Exists"):
+        binders = [(), (sym("qi", I),), (sym("qb", B), sym("qv", V(8))), (sym("qf", F(I, I)),), (int_t(1),),
+                   (sym("qi", I), TRUE_T), (sym("qa", A(I, I)),), (sym("qs", CS),)]
+        for vs in binders:
+            for s in U14:
+                yield arg_syms((s,)), (vs,)
+    if name == "Array":
+        keys = {I: [int_t(1), int_t(2)], V(2): [bv_t(1, 2), bv_t(2, 2)], B: [TRUE_T, FALSE_T]}
+        for idx in (I, V(2), B, None):
+            for d in U14:
+                yield arg_syms((d,)), (idx, None)
+                yield arg_syms((d,)), (idx, ())
+                # (an ill-typed array value costs ~10 ms: printing it for the error message recurses
+                #  through get_type up to the recursion limit) -- quick tier: value sorts {d, Bool, Int}
+                vals = U14 if not quick else sorted({d, B, I})
+                for kidx in (I, V(2), B):
+                    for vs in vals:
+                        yield arg_syms((d,)), (idx, ((keys[kidx][0], arg_sym(1, vs)),))
+                for vs in vals:
+                    yield arg_syms((d,)), (idx, ((arg_sym(2, I), arg_sym(1, vs)),))      # non-constant key
+                    yield arg_syms((d,)), (idx, ((keys[I][0], arg_sym(1, vs)), (keys[I][1], arg_sym(1, d))))
+    if name == "Pow":
+        bases = [arg_sym(0, s) for s in U14] + [int_t(3), int_t(0), real_t(Fraction(1, 2)), TRUE_T, str_t("a"), bv_t(3, 8)]
+        exps = [int_t(2), int_t(0), int_t(-1), real_t(2), real_t(Fraction(1, 2)), TRUE_T, str_t("a"), bv_t(1, 8),
+                arg_sym(1, I)]
+        for b in bases:
+            for e in exps:
+                yield (b, e), ()
+
+
+def realize(env, t):
+    """raw leaf -> FNode (through the public constructors)"""
+    mgr = env.formula_manager
+    o, p, _ = t
+    if o == "symbol":
+        return mgr.Symbol(p[1], to_pysmt(env, p[2]))
+    if o == "intConst":
+        return mgr.Int(p[1])
+    if o == "realConst":
+        return mgr.Real(p[1])
+    if o == "boolConst":
+        return mgr.Bool(p[1])
+    if o == "strConst":
+        return mgr.String(p[1])
+    if o == "bvConst":
+        return mgr.BV(p[1], p[2])
+    raise ValueError(t)
+
+
+def call_ctor(env, name, args, extra):
+    mgr = env.formula_manager
+    fn = getattr(mgr, name)
+    ra = [realize(env, a) for a in args]
+    if name in NARY_CTORS:
+        pre = list(extra)                      # MinBV/MaxBV: sign first
+        if len(ra) <= 3:
+            return fn(*(pre + ra))
+        return fn(*(pre + [ra])) if not pre else fn(*(pre + ra))
+    if name == "Function":
+        return fn(realize(env, extra[0]), ra)
+    if name in ("ForAll", "Exists"):
+        return fn([realize(env, v) for v in extra[0]], ra[0])
+    if name == "Array":
+        idx, assigned = extra
+        it = to_pysmt(env, idx) if idx is not None else "not-a-type"
+        if assigned is None:
+            return fn(it, ra[0])
+        return fn(it, ra[0], {realize(env, k): realize(env, v) for k, v in assigned})
+    return fn(*(ra + list(extra)))
+
+
+def py_value(t):
+    o, p, _ = t
+    if o == "bvConst":
+        return p[1]
+    return p[1]
+
+
+def model_real(val):
+    if type(val) is Fraction:
+        return real_t(val)
+    if type(val) in (int, float):
+        return real_t(Fraction(val))
+    raise Reject("Real: not a rational")
+
+
+def predicted(name, args, extra):
+    """('reject', why) | ('tree', raw) | ('array', idx, default, frozenset(pairs))"""
+    try:
+        if name == "Pow" and is_const(args[0]) and is_const(args[1]):
+            try:
+                val = py_value(args[0]) ** py_value(args[1])
+            except (TypeError, ZeroDivisionError, OverflowError, ValueError) as e:
+                raise Reject("Pow: python arithmetic raised " + type(e).__name__)
+            return ("tree", model_real(val))
+        t = model(name, args, extra)
+    except Reject as e:
+        return ("reject", str(e))
+    if t[0] == "arrayValue?":
+        d, assigned = t[2]
+        pairs = frozenset((k, v) for k, v in dict(assigned).items() if v != d)
+        return ("array", t[1][1], d, pairs)
+    return ("tree", t)
+
+
+def has_fn_term(t):
+    """does a function-typed symbol occur in term position (outside the model's fragment)"""
+    o, p, ch = t
+    if o == "symbol" and is_fn(p[2]):
+        return True
+    return any(has_fn_term(c) for c in ch)
+
+
+def run_grid_b_ctor(job):
+    """worker: all grid-B cases of one constructor"""
+    name, tier = job
+    env = Environment()
+    out = []
+    import warnings
+    warnings.simplefilter("ignore")
+    for args, extra in grid_b_cases(name, tier):
+        res = outcome_of(lambda: call_ctor(env, name, args, extra))
+        raw = None
+        if res[0] == "ok":
+            f = res[1]
+            try:
+                ty = from_pysmt(env.stc.get_type(f))
+            except Exception as e:          # noqa
+                ty = "get_type:" + type(e).__name__
+            try:
+                raw = raw_of_fnode(f)
+            except wire.OutOfFragment:
+                raw = "out-of-fragment"
+            res = ("ok", ty)
+        out.append((args, extra, res, raw))
+    return out
+
+
+# =====================================================================================
+# judging
+# =====================================================================================
+NOMINAL_ARITY = {}
+for _o in wire.OPNAMES:
+    if _o in ("and", "or", "plus", "times", "strConcat"):
+        NOMINAL_ARITY[_o] = ("ge", 2)
+    elif _o == "function":
+        NOMINAL_ARITY[_o] = ("ge", 1)
+    elif _o == "arrayValue":
+        NOMINAL_ARITY[_o] = ("odd", 0)
+    elif _o in ("symbol", "realConst", "boolConst", "intConst", "strConst", "bvConst", "algebraicConst"):
+        NOMINAL_ARITY[_o] = ("eq", 0)
+    elif _o in ("not", "toReal", "bvNot", "bvNeg", "bvExtract", "bvRol", "bvRor", "bvZext", "bvSext", "forall",
+                "exists", "strLength", "strToInt", "intToStr", "bvToNatural"):
+        NOMINAL_ARITY[_o] = ("eq", 1)
+    elif _o in ("ite", "strIndexOf", "strReplace", "strSubstr", "arrayStore"):
+        NOMINAL_ARITY[_o] = ("eq", 3)
+    else:
+        NOMINAL_ARITY[_o] = ("eq", 2)
+
+
+def arity_ok(o, n):
+    k, v = NOMINAL_ARITY[o]
+    return n >= v if k == "ge" else (n % 2 == 1 if k == "odd" else n == v)
+
+
+# model boundary (reported to the integrator, Core/TypeOf.lean deliberately left as is): the real
+# checker silently ignores extra arguments of these operators / a dangling array-value key, and
+# raises on `le()`, `lt()`, `function[non-function symbol]()` where typeOfNode answers a sort.
+EXTRA_ARG_LENIENT = {"bvConcat": 2, "bvExtract": 1, "bvRol": 1, "bvRor": 1, "ite": 3, "arraySelect": 2,
+                     "arrayStore": 3, "pow": 2}
+
+
+def model_boundary(o, p, n, impl_ok, lean_ok):
+    if impl_ok and not lean_ok:
+        if o in EXTRA_ARG_LENIENT and n > EXTRA_ARG_LENIENT[o]:
+            return "extra-arguments-ignored"
+        if o == "arrayValue" and n >= 2 and n % 2 == 0:
+            return "dangling-array-key"
+    if lean_ok and not impl_ok:
+        if o in ("le", "lt") and n == 0:
+            return "relation-without-arguments"
+        if o == "function" and n == 0 and p is not None and p[0] == "y" and not is_fn(p[2]):
+            return "application-of-a-constant"
+    return None
+
+
+def payload_negative(p):
+    return p is not None and p[0] == "n" and any(isinstance(x, int) and x < 0 for x in p[1:])
+
+
+def classify_node(o, p, ss):
+    """which hole of the checker an accepted ill-sorted raw node falls into"""
+    if not arity_ok(o, len(ss)):
+        return "arity"
+    if any(is_fn(s) for s in ss):
+        return "function-symbol-argument"
+    if o in ("forall", "exists") and p is not None and p[0] == "Q" and any(is_fn(t) for _, t in p[1:]):
+        return "function-bound-variable"
+    if o in ("forall", "exists") and p is not None and p[0] == "Q!":
+        return "non-symbol-bound-variable"
+    if payload_negative(p):
+        return "negative-rotate-step" if o in ("bvRol", "bvRor") else "payload"
+    if o == "pow":
+        return "pow-non-numeric"
+    if o == "equals" and len(ss) == 2 and ss[0] == ss[1] == B:
+        return "equals-on-bool"
+    return "payload"
+
+
+def parse_chk(ans):
+    """driver `chk` answer -> (typeOf, wt, sortOf, noF06, rotInRange)"""
+    parts = [x.strip() for x in ans.split("|")]
+    if len(parts) != 5:
+        raise ValueError(ans)
+    return (dec_sort_answer(parts[0]), parts[1] == "true", dec_sort_answer(parts[2]), parts[3] == "true",
+            parts[4] == "true")
+
+
+class Judge:
+    """collects the driver requests of both grids and judges K and S when the answers are in"""
+
+    def __init__(self, ctx):
+        self.ctx = ctx
+        self.lines = []
+        self.pending = []          # (kind, data) per line
+
+    def ask(self, raw, cont):
+        try:
+            line = "chk " + enc_raw(raw)
+        except wire.OutOfFragment:
+            return False
+        self.lines.append(line)
+        self.pending.append(cont)
+        return True
+
+    def flush(self):
+        ctx = self.ctx
+        if not self.lines:
+            return
+        try:
+            answers = ctx.lean_run_sharded("C03", self.lines)
+        except common.LeanError as e:
+            ctx.report_l("driver C03 does not run", str(e))
+            answers = [None] * len(self.lines)
+        for line, ans, cont in zip(self.lines, answers, self.pending):
+            if ans is None:
+                cont(None, line)
+            elif ans.startswith("bad-op"):
+                ctx.infra("driver rejected a request: %s :: %s" % (ans, line[:200]))
+            else:
+                cont(parse_chk(ans), line)
+        self.lines, self.pending = [], []
+
+    # -------------------------------------------------------------- common checks on a `chk` answer
+    def spec_checks(self, raw, chk, line, what):
+        """the python oracle and the Lean specification must agree; instances of the theorems"""
+        ctx = self.ctx
+        ty, wt, so, nof06, rot = chk
+        mine = sort_of(raw)
+        if so != mine:
+            ctx.report_k("oracle rank() and Spec.sortOf disagree on %s: %r vs %r" % (show_raw(raw), mine, so),
+                         {"grid": what, "request": line, "term": show_raw(raw)})
+        if wt and nof06 and so != ty:
+            ctx.report_k("instance of typeOf_sound_partial fails on %s" % show_raw(raw),
+                         {"grid": what, "request": line, "term": show_raw(raw)})
+        if so is not None and rot and not (wt and ty == so):
+            ctx.report_k("instance of typeOf_complete_partial fails on %s" % show_raw(raw),
+                         {"grid": what, "request": line, "term": show_raw(raw)})
+
+
+def sorts_key(ss):
+    return ",".join(sort_name(s) for s in ss)
+
+
+def payload_key(p):
+    if p is None:
+        return "-"
+    if p[0] == "n":
+        return "n" + ",".join(str(x) for x in p[1:])
+    if p[0] in ("Q", "Q!"):
+        return p[0] + ",".join(sort_name(x[1]) if len(x) > 1 else str(x[0]) for x in p[1:])
+    if p[0] == "y":
+        return "y:" + sort_name(p[2])
+    if p[0] == "t":
+        return "t:" + sort_name(p[1])
+    return p[0]
+
+
+def judge_grid_a(ctx, judge, results):
+    for ss, p, raw, res in results:
+        o = raw[0]
+        ss = list(ss)
+        impl_ok = res[0] == "ok"
+        impl_ty = res[1] if impl_ok else None
+        rk = rank(o, p, ss)
+        replay = {"grid": "A", "op": o, "sorts": [sort_name(s) for s in ss], "payload": repr(p),
+                  "impl": repr(res), "rules": repr(rk), "term": show_raw(raw)}
+        ctx.case(("A", o, sorts_key(ss), payload_key(p)) if (impl_ok or rk is not None) else None)
+        ctx.count("A_" + ("ok" if impl_ok else "err"))
+        # ---- S: the implementation against the sorting rules
+        hole = classify_node(o, p, ss)
+        if impl_ok and rk is None:
+            if o == "symbol" and any(True for _ in [0]) and p is not None and p[0] == "y" and is_fn(p[2]) and not ss:
+                pass        # declaring a function symbol: a declaration, not a term
+            else:
+                ctx.report_s({"oracle": "sort-rules", "via": "create_node", "kind": "accepted-ill-sorted",
+                              "op": o, "hole": hole},
+                             "create_node(%s) on (%s) payload %s returned a formula of type %s; the rules say ill-sorted"
+                             % (o, sorts_key(ss), payload_key(p), sort_name(impl_ty) if isinstance(impl_ty, tuple) else impl_ty),
+                             replay)
+        elif impl_ok and rk != impl_ty:
+            ctx.report_s({"oracle": "sort-rules", "via": "create_node", "kind": "wrong-type", "op": o,
+                          "sorts": sorts_key(ss)},
+                         "create_node(%s): reported type %r, the rules give %r" % (o, impl_ty, rk), replay)
+        elif (not impl_ok) and rk is not None:
+            shape = "rotate-step-exceeds-width" if o in ("bvRol", "bvRor") and p[2] > p[1] else "sorts=" + sorts_key(ss)
+            ctx.report_s({"oracle": "sort-rules", "via": "create_node", "kind": "rejected-well-sorted", "op": o,
+                          "shape": shape},
+                         "create_node(%s) on (%s) payload %s raised %s; the rules give %r"
+                         % (o, sorts_key(ss), payload_key(p), res[1], rk), replay)
+        # ---- K: the implementation against typeOf / wt
+        if any(is_fn(s) for s in ss) or (o == "symbol" and p is not None and p[0] == "y" and is_fn(p[2])):
+            ctx.count("A_k_skipped_function_symbol")
+            continue
+
+        def cont(chk, line, raw=raw, o=o, p=p, ss=ss, impl_ok=impl_ok, impl_ty=impl_ty, replay=replay):
+            if chk is None:
+                return
+            ty, wt, so, nof06, rot = chk
+            judge.spec_checks(raw, chk, line, "A")
+            lean_ok = wt and ty is not None
+            if lean_ok == impl_ok and (not impl_ok or ty == impl_ty):
+                return
+            b = model_boundary(o, p, len(ss), impl_ok, lean_ok)
+            if b is not None:
+                ctx.count("A_model_boundary_" + b)
+                return
+            rep = dict(replay, request=line, lean="%r wt=%s" % (ty, wt))
+            ctx.report_k("create_node(%s) on (%s) payload %s: implementation %r, model typeOf=%r wt=%s"
+                         % (o, sorts_key(ss), payload_key(p), (impl_ok, impl_ty), ty, wt), rep)
+        if not judge.ask(raw, cont):
+            ctx.count("A_k_skipped_not_encodable")
+
+
+PASSTHROUGH_NARY = set(NARY_CTORS)
+
+
+def classify_ctor(name, args, extra, pred):
+    """shape class of a constructor call (for matching known findings)"""
+    ss = [sort_of(a) if a[0] != "symbol" else a[1][2] for a in args]
+    if name in ("ForAll", "Exists"):
+        vs = extra[0]
+        if len(vs) == 0:
+            return "empty-binder-passthrough"
+        if any(v[0] != "symbol" for v in vs):
+            return "non-symbol-bound-variable"
+        if any(is_fn(sym_sort(v)) for v in vs):
+            return "function-bound-variable"
+    if name == "Function" and len(args) == 0:
+        return "no-parameter-passthrough"
+    if name in PASSTHROUGH_NARY and len(args) == 1:
+        return "single-argument-passthrough"
+    if name in ("BVRol", "BVRor") and type(extra[0]) is int:
+        if extra[0] < 0:
+            return "negative-rotate-step"
+        if is_bv(ss[0]) and extra[0] > ss[0][1]:
+            return "rotate-step-exceeds-width"
+    if name == "BVRepeat" and extra[0] < 1:
+        return "repeat-count-below-one"
+    if name == "BVRepeat" and extra[0] == 1:
+        return "repeat-once-passthrough"
+    if any(is_fn(s) for s in ss):
+        return "function-symbol-argument"
+    if name == "Pow":
+        if is_const(args[0]) and is_const(args[1]):
+            if ss[0] == ss[1] and ss[0] in (I, R):
+                return "pow-zero-to-negative" if py_value(args[0]) == 0 and py_value(args[1]) < 0 else "pow-constants"
+            return "pow-constant-folding"
+        return "pow-non-numeric"
+    return "sorts=" + sorts_key(ss) + (" extra=%r" % (extra,) if extra else "")
+
+
+def extra_key(extra):
+    def k(x):
+        if isinstance(x, tuple) and len(x) == 3 and isinstance(x[0], str) and isinstance(x[2], tuple):
+            return show_raw(x)
+        if isinstance(x, tuple):
+            return "(" + ",".join(k(y) for y in x) + ")"
+        return repr(x)
+    return k(tuple(extra))
+
+
+def judge_grid_b(ctx, judge, name, results):
+    for args, extra, res, raw in results:
+        ss = [a[1][2] if a[0] == "symbol" else sort_of(a) for a in args]
+        impl_ok = res[0] == "ok"
+        impl_ty = res[1] if impl_ok else None
+        pred = predicted(name, args, extra)
+        rk = crank(name, ss, (is_const(args[1]),) if name == "Pow" else extra)
+        shape = classify_ctor(name, args, extra, pred)
+        key = ("B", name, sorts_key(ss), extra_key(extra))
+        ctx.case(key if (impl_ok or rk is not None) else None)
+        ctx.count("B_" + ("ok" if impl_ok else "err"))
+        replay = {"grid": "B", "ctor": name, "sorts": [sort_name(s) if s else "?" for s in ss],
+                  "args": [show_raw(a) for a in args], "extra": extra_key(extra), "impl": repr(res),
+                  "rules": repr(rk), "predicted": pred[0] + (": " + pred[1] if pred[0] == "reject" else "")}
+        if impl_ok and len(ctx.samples) < 3 and len(args) >= 2:
+            ctx.sample({"ctor": name, "sorts": replay["sorts"], "extra": replay["extra"], "type": sort_name(impl_ty)})
+        # ---- S
+        sig = {"oracle": "sort-rules", "via": "constructor", "ctor": name, "shape": shape}
+        if impl_ok:
+            if isinstance(raw, tuple):
+                rs = sort_of(raw)
+                if rs != impl_ty and not (raw[0] == "symbol" and is_fn(raw[1][2])):
+                    ctx.report_s(dict(sig, kind="result-ill-sorted"),
+                                 "%s(%s)%s returned %s of reported type %r; by the rules its sort is %r"
+                                 % (name, sorts_key(ss), extra_key(extra), show_raw(raw), impl_ty, rs), replay)
+            if rk is None:
+                ctx.report_s(dict(sig, kind="accepted-ill-sorted"),
+                             "%s on (%s)%s returned a formula (type %r); the rules say the application is ill-sorted"
+                             % (name, sorts_key(ss), extra_key(extra), impl_ty), replay)
+            elif rk != impl_ty:
+                ctx.report_s(dict(sig, kind="wrong-type"),
+                             "%s on (%s)%s: reported type %r, the rules give %r"
+                             % (name, sorts_key(ss), extra_key(extra), impl_ty, rk), replay)
+        elif rk is not None:
+            ctx.report_s(dict(sig, kind="rejected-well-sorted"),
+                         "%s on (%s)%s raised %s; the rules give %r" % (name, sorts_key(ss), extra_key(extra), res[1], rk),
+                         replay)
+        # ---- K
+        if pred[0] == "reject":
+            ctx.count("B_ctor_check")
+            if impl_ok:
+                ctx.report_k("%s on (%s)%s: a constructor check (%s) should refuse, implementation returned %r"
+                             % (name, sorts_key(ss), extra_key(extra), pred[1], impl_ty), replay)
+            continue
+        if pred[0] == "array":
+            _, idx, d, pairs = pred
+            if impl_ok:
+                okshape = (isinstance(raw, tuple) and raw[0] == "arrayValue" and raw[1] == ("t", idx) and raw[2][0] == d
+                           and frozenset(zip(raw[2][1::2], raw[2][2::2])) == pairs and len(raw[2]) == 1 + 2 * len(pairs))
+                if not okshape:
+                    ctx.report_k("Array: returned structure differs from the constructor table", replay)
+                tree = raw
+            else:
+                flat = [d]
+                for k_, v_ in sorted(pairs):
+                    flat += [k_, v_]
+                tree = ("arrayValue", ("t", idx), tuple(flat))
+        else:
+            tree = pred[1]
+            if impl_ok and raw == "out-of-fragment":
+                ctx.count("B_k_structure_not_encodable")
+            elif impl_ok and raw != tree:
+                ctx.report_k("%s on (%s)%s: returned structure %s, constructor table says %s"
+                             % (name, sorts_key(ss), extra_key(extra),
+                                show_raw(raw) if isinstance(raw, tuple) else raw, show_raw(tree)), replay)
+        if has_fn_term(tree):
+            ctx.count("B_k_skipped_function_symbol")
+            continue
+
+        def cont(chk, line, tree=tree, impl_ok=impl_ok, impl_ty=impl_ty, replay=replay, name=name):
+            if chk is None:
+                return
+            ty, wt, so, nof06, rot = chk
+            judge.spec_checks(tree, chk, line, "B")
+            lean_ok = wt and ty is not None
+            if lean_ok == impl_ok and (not impl_ok or ty == impl_ty):
+                return
+            ctx.report_k("%s: implementation %r, model typeOf=%r wt=%s on %s"
+                         % (name, (impl_ok, impl_ty), ty, wt, show_raw(tree)),
+                         dict(replay, request=line, lean="%r wt=%s" % (ty, wt)))
+        if not judge.ask(tree, cont):
+            ctx.count("B_k_skipped_not_encodable")
+
+
+# =====================================================================================
+# constant / symbol constructors (explicit list: value corners)
+# =====================================================================================
+def const_cases():
+    """(label, call(mgr, env), expected raw tree | Reject-reason string)"""
+    F_ = Fraction
+    cs = []
+
+    def add(label, fn, exp):
+        cs.append((label, fn, exp))
+    add("Int(5)", lambda m, e: m.Int(5), int_t(5))
+    add("Int(-7)", lambda m, e: m.Int(-7), int_t(-7))
+    add("Int(10**30)", lambda m, e: m.Int(10 ** 30), int_t(10 ** 30))
+    add("Int(True)", lambda m, e: m.Int(True), "reject")
+    add("Int(1.0)", lambda m, e: m.Int(1.0), "reject")
+    add("Int('1')", lambda m, e: m.Int("1"), "reject")
+    add("Real(1)", lambda m, e: m.Real(1), real_t(1))
+    add("Real(0.5)", lambda m, e: m.Real(0.5), real_t(F_(1, 2)))
+    add("Real((1,3))", lambda m, e: m.Real((1, 3)), real_t(F_(1, 3)))
+    add("Real(Fraction(-2,4))", lambda m, e: m.Real(F_(-2, 4)), real_t(F_(-1, 2)))
+    add("Real(True)", lambda m, e: m.Real(True), "reject")
+    add("Real('x')", lambda m, e: m.Real("x"), "reject")
+    add("Real((1,0))", lambda m, e: m.Real((1, 0)), "reject")
+    add("String('ab')", lambda m, e: m.String("ab"), str_t("ab"))
+    add("String('')", lambda m, e: m.String(""), str_t(""))
+    add("String(5)", lambda m, e: m.String(5), "reject")
+    add("Bool(True)", lambda m, e: m.Bool(True), TRUE_T)
+    add("Bool(False)", lambda m, e: m.Bool(False), FALSE_T)
+    add("Bool(1)", lambda m, e: m.Bool(1), "reject")
+    add("TRUE()", lambda m, e: m.TRUE(), TRUE_T)
+    add("FALSE()", lambda m, e: m.FALSE(), FALSE_T)
+    for (v, w) in [(5, 8), (255, 8), (256, 8), (-1, 8), (0, 1), (1, 1), (2, 1), (0, 0), (5, None), ("101", None),
+                   ("#b101", 3), ("#b101", 4), ("12", None), ("", None), (1.0, 8), (True, 8), (3, -1)]:
+        try:
+            exp = m_bvconst(v, w)
+        except Reject:
+            exp = "reject"
+        add("BV(%r,%r)" % (v, w), (lambda m, e, v=v, w=w: m.BV(v, w)), exp)
+    for (v, w) in [(-1, 8), (-128, 8), (-129, 8), (127, 8), (128, 8), (0, 1), (-1, 1), (1, 1), (5, None), ("101", None),
+                   (-1, 0)]:
+        try:
+            exp = m_sbv(v, w)
+        except Reject:
+            exp = "reject"
+        add("SBV(%r,%r)" % (v, w), (lambda m, e, v=v, w=w: m.SBV(v, w)), exp)
+    for w in (1, 8, 0, -1):
+        for nm, val in (("BVOne", 1), ("BVZero", 0)):
+            try:
+                exp = m_bvconst(val, w)
+            except Reject:
+                exp = "reject"
+            add("%s(%r)" % (nm, w), (lambda m, e, nm=nm, w=w: getattr(m, nm)(w)), exp)
+    for n, s in UNIVERSE:
+        add("Symbol(s_%s,%s)" % (n, n), (lambda m, e, n=n, s=s: m.Symbol("s_" + n, to_pysmt(e, s))), sym("s_" + n, s))
+        add("FreshSymbol(%s)" % n, (lambda m, e, s=s: m.FreshSymbol(to_pysmt(e, s))), ("fresh", s))
+    add("Symbol(s_Int,Bool) redefinition", lambda m, e: m.Symbol("s_Int", to_pysmt(e, B)), "reject")
+    add("Symbol('',Int)", lambda m, e: m.Symbol("", to_pysmt(e, I)), "reject")
+    add("Symbol('x','Int') (type is a string)", lambda m, e: m.Symbol("zz", "Int"), "reject")
+    add("FreshSymbol(Int,'v%d')", lambda m, e: m.FreshSymbol(to_pysmt(e, I), "v%d"), ("fresh", I))
+    return cs
+
+
+def run_constants(ctx, judge):
+    env = Environment()
+    mgr = env.formula_manager
+    for label, fn, exp in const_cases():
+        res = outcome_of(lambda: fn(mgr, env))
+        ctx.count("C_" + res[0])
+        rep = {"grid": "constants", "call": label, "impl": repr(res[:1]), "expected": repr(exp)}
+        if res[0] == "err":
+            ctx.case(None)
+            if exp != "reject":
+                ctx.report_s({"oracle": "sort-rules", "via": "constructor", "ctor": label.split("(")[0],
+                              "kind": "rejected-well-sorted", "shape": label},
+                             "%s raised %s" % (label, res[1]), rep)
+            continue
+        ctx.case(("C", label))
+        f = res[1]
+        ty = from_pysmt(env.stc.get_type(f))
+        try:
+            raw = raw_of_fnode(f)
+        except wire.OutOfFragment:
+            raw = ("bvConst", ("v",) + tuple(f._content.payload), ()) if f.is_bv_constant() else ("?", None, ())
+        if exp == "reject":
+            shape = "non-positive-width-bit-vector" if (raw[0] == "bvConst" and raw[1][2] <= 0) else label
+            ctx.report_s({"oracle": "sort-rules", "via": "constructor", "ctor": label.split("(")[0],
+                          "kind": "accepted-ill-sorted", "shape": shape},
+                         "%s returned %s : %s" % (label, show_raw(raw), sort_name(ty)), rep)
+            continue
+        if isinstance(exp, tuple) and exp[0] == "fresh":
+            if not (raw[0] == "symbol" and raw[1][2] == exp[1] and ty == exp[1]):
+                ctx.report_k("%s returned %s : %r" % (label, show_raw(raw), ty), rep)
+            continue
+        if raw != exp:
+            ctx.report_k("%s returned %s, constructor table says %s" % (label, show_raw(raw), show_raw(exp)), rep)
+        want = exp[1][2] if exp[0] == "symbol" else sort_of(exp)
+        if raw[0] == "bvConst" and raw[1][2] <= 0:
+            ctx.report_s({"oracle": "sort-rules", "via": "constructor", "ctor": label.split("(")[0],
+                          "kind": "accepted-ill-sorted", "shape": "non-positive-width-bit-vector"},
+                         "%s returned a constant of sort (_ BitVec %d)" % (label, raw[1][2]), rep)
+            continue
+        if ty != want:
+            ctx.report_s({"oracle": "sort-rules", "via": "constructor", "ctor": label.split("(")[0],
+                          "kind": "wrong-type", "shape": label},
+                         "%s : reported %r, rules %r" % (label, ty, want), rep)
+        if not is_fn(ty):
+            def cont(chk, line, raw=raw, ty=ty, rep=rep, label=label):
+                if chk is None:
+                    return
+                judge.spec_checks(raw, chk, line, "constants")
+                if not (chk[1] and chk[0] == ty):
+                    ctx.report_k("%s: implementation type %r, model typeOf=%r wt=%s" % (label, ty, chk[0], chk[1]),
+                                 dict(rep, request=line))
+            judge.ask(raw, cont)
+
+
+# =====================================================================================
+# K for Impl/CreateNode.lean: random histories of create_node calls (driver `hist`)
+# =====================================================================================
+HIST_PALETTE = [
+    ("symbol", [("y", "hx", I), ("y", "hy", I), ("y", "hp", B), ("y", "hv", V(8)), ("y", "ha", A(I, I))], 0),
+    ("intConst", [("i", 1), ("i", 0)], 0), ("boolConst", [("b", True), ("b", False)], 0),
+    ("bvConst", [("v", 3, 8)], 0),
+    ("plus", [None], 2), ("plus", [None], 3), ("times", [None], 2), ("le", [None], 2), ("equals", [None], 2),
+    ("not", [None], 1), ("and", [None], 2), ("or", [None], 3), ("iff", [None], 2), ("ite", [None], 3),
+    ("bvAdd", [ints(8), ints(4)], 2), ("bvNot", [ints(8)], 1), ("bvUlt", [None], 2),
+    ("bvExtract", [ints(4, 0, 3), ints(4, 6, 9)], 1), ("bvZext", [ints(12, 4)], 1),
+    ("arraySelect", [None], 2), ("arrayStore", [None], 3), ("toReal", [None], 1),
+    ("forall", [("Q", ("hq", I))], 1),
+]
+
+
+def run_histories(ctx, n_hist):
+    rng = ctx.rng
+    lines, metas = [], []
+    for h in range(n_hist):
+        env = Environment()
+        mgr = env.formula_manager
+        mgr.Symbol("hq", env.type_manager.INT())      # the bound variable of the palette (payload only)
+        base = len(mgr.formulae)
+        calls, results, outs = [], [], []
+        for i in range(rng.randint(4, 14)):
+            o, pls, ar = rng.choice(HIST_PALETTE)
+            p = rng.choice(pls)
+            # arguments: results of earlier calls (also failed ones, with small probability)
+            idxs = []
+            for _ in range(ar):
+                if not results:
+                    break
+                okpos = [j for j, r in enumerate(results) if r is not None]
+                if okpos and rng.random() < 0.93:
+                    idxs.append(rng.choice(okpos))
+                else:
+                    idxs.append(rng.randrange(len(results)))
+            if len(idxs) != ar:
+                continue
+            calls.append("%s %s %d%s" % (o, enc_payload(p), len(idxs), "".join(" %d" % j for j in idxs)))
+            if any(results[j] is None for j in idxs):
+                results.append(None)
+                outs.append("skip")
+                continue
+            rp = real_payload(env, o, p)
+            res = outcome_of(lambda: mgr.create_node(wire.OPID[o], tuple(results[j] for j in idxs), rp))
+            results.append(res[1] if res[0] == "ok" else None)
+            outs.append("ok" if res[0] == "ok" else "err")
+        lines.append("hist %d %s" % (len(calls), " ".join(calls)))
+        metas.append(" ".join(outs + ["+%d" % (len(mgr.formulae) - base)]))
+    try:
+        answers = ctx.lean_run("C03", lines)
+    except common.LeanError as e:
+        ctx.report_l("driver C03 does not run", str(e))
+        return
+    for line, want, got in zip(lines, metas, answers):
+        ctx.case(("H", line))
+        ctx.count("H_histories")
+        if want != got:
+            ctx.report_k("create_node history: implementation [%s], model [%s]" % (want, got),
+                         {"grid": "hist", "request": line, "impl": want, "lean": got})
+
+
+# =====================================================================================
+# S on transformation outputs
+# =====================================================================================
+def transformations(env):
+    import io
+    from pysmt.rewritings import nnf, prenex_normal_form, aig, cnf, Ackermannizer
+    from pysmt.smtlib.script import smtlibscript_from_formula
+    from pysmt.smtlib.parser import SmtLibParser
+    mgr = env.formula_manager
+
+    def t_simplify(f):
+        return env.simplifier.simplify(f)
+
+    def t_substitute(f, rng):
+        fv = sorted(env.fvo.get_free_variables(f), key=lambda s: s.symbol_name())
+        fv = [v for v in fv if not v.symbol_type().is_function_type()]
+        if not fv:
+            return f
+        v = rng.choice(fv)
+        return env.substituter.substitute(f, {v: rng.choice([mgr.FreshSymbol(v.symbol_type(), "sb%d"), v])})
+
+    def t_parse_print(f):
+        buf = io.StringIO()
+        smtlibscript_from_formula(f).serialize(buf, daggify=True)
+        script = SmtLibParser(env).get_script(io.StringIO(buf.getvalue()))
+        return script.get_last_formula(mgr)
+    return {
+        "simplify": (t_simplify, False, False),
+        "substitute": (t_substitute, False, True),
+        "parse(print)": (t_parse_print, False, False),
+        "nnf": (lambda f: nnf(f, env), True, False),
+        "prenex": (lambda f: prenex_normal_form(f, env), True, False),
+        "aig": (lambda f: aig(f, env), True, False),
+        "cnf": (lambda f: cnf(f, env), True, False),
+        "ackermannize": (lambda f: Ackermannizer(env).do_ackermannization(f), True, False),
+    }
+
+
+def run_transformations(ctx, judge, n):
+    import gen
+    import pysmt.environment
+    env = Environment()
+    # the SMT-LIB printer/parser and FNode.get_type use the global environment
+    pysmt.environment.push_env(env)
+    try:
+        uni = gen.Universe(env)
+        fg = gen.FormulaGen(ctx.rng, uni, max_depth=4, quant_prob=0.08)
+        mgr = env.formula_manager
+        tr = transformations(env)
+        seeds = []
+        b, x = mgr.Symbol("p", env.type_manager.BOOL()), mgr.Symbol("x", env.type_manager.INT())
+        seeds.append(mgr.Pow(mgr.Ite(b, mgr.Int(3), mgr.Int(3)), mgr.Int(2)))      # F05
+        seeds.append(mgr.Equals(mgr.Pow(mgr.ToReal(x), mgr.Real(2)), mgr.Real(4)))
+        for i in range(n):
+            if ctx.time_left() < 25:
+                break
+            if i < len(seeds):
+                f = seeds[i]
+            else:
+                ty = fg.any_type(0.6)
+                f = fg.gen(ty, ctx.rng.choice([2, 3, 4]))
+            try:
+                fraw = raw_of_fnode(f)
+            except wire.OutOfFragment:
+                ctx.count("T_out_of_fragment")
+                continue
+            fty = from_pysmt(env.stc.get_type(f))
+            isbool = fty == B
+            for tname, (fn, need_bool, need_rng) in tr.items():
+                if need_bool and not isbool:
+                    continue
+                res = outcome_of((lambda: fn(f, ctx.rng)) if need_rng else (lambda: fn(f)))
+                ctx.count("T_" + tname)
+                rep = {"grid": "transform", "transform": tname, "formula": show_raw(fraw), "type": sort_name(fty),
+                       "request_in": "chk " + enc_raw(fraw)}
+                root = fraw[0]
+                if res[0] == "err":
+                    ctx.case(None)
+                    if tname in ("nnf", "cnf", "aig", "prenex") and res[1] in ("NotImplementedError",):
+                        ctx.count("T_unsupported")
+                        continue
+                    ctx.count("T_err_" + tname + "_" + res[1])
+                    continue            # failing transformations are the owner properties' business (C01/C05/C08/C10/C11)
+                g = res[1]
+                try:
+                    graw = raw_of_fnode(g)
+                except wire.OutOfFragment:
+                    ctx.count("T_out_of_fragment")
+                    continue
+                ctx.case(("T", tname, enc_raw(fraw)) if graw != fraw else None)
+                try:
+                    gty = from_pysmt(env.stc.get_type(g))
+                except Exception as e:      # noqa
+                    gty = "get_type:" + type(e).__name__
+                has_pow = "pow(" in show_raw(fraw)
+                sig = {"oracle": "transform", "transform": tname, "root": root, "pow": "yes" if has_pow else "no"}
+                if gty != fty:
+                    ctx.report_s(dict(sig, kind="type-changed"),
+                                 "%s changed the type of %s from %r to %r (result %s)"
+                                 % (tname, show_raw(fraw), fty, gty, show_raw(graw)), dict(rep, result=show_raw(graw)))
+                    continue
+
+                def cont(chk, line, graw=graw, fty=fty, rep=rep, tname=tname, sig=sig, fraw=fraw):
+                    if chk is None:
+                        return
+                    ty, wt, so, nof06, rot = chk
+                    judge.spec_checks(graw, chk, line, "transform")
+                    if not wt or ty != fty:
+                        ctx.report_s(dict(sig, kind="result-not-wt"),
+                                     "%s(%s) = %s: model says wt=%s typeOf=%r, expected %r"
+                                     % (tname, show_raw(fraw), show_raw(graw), wt, ty, fty),
+                                     dict(rep, result=show_raw(graw), request=line))
+                    elif so != fty and nof06:
+                        ctx.report_s(dict(sig, kind="result-ill-sorted"),
+                                     "%s(%s) = %s is not well-sorted by the rules (%r)" % (tname, show_raw(fraw), show_raw(graw), so),
+                                     dict(rep, result=show_raw(graw), request=line))
+                judge.ask(graw, cont)
+    finally:
+        pysmt.environment.pop_env()
+
+
+# =====================================================================================
+# entry points
+# =====================================================================================
+def _pool_map(ctx, fn, jobs):
+    from concurrent.futures import ProcessPoolExecutor
+    import multiprocessing
+    if ctx.workers <= 1:
+        return [fn(j) for j in jobs]
+    with ProcessPoolExecutor(ctx.workers, mp_context=multiprocessing.get_context("fork")) as ex:
+        return list(ex.map(fn, jobs))
+
+
+def run(ctx):
+    tier = ctx.tier
+    judge = Judge(ctx)
+    t0 = time.time()
+    # ---- grid A
+    res_a = _pool_map(ctx, run_grid_a_op, [(o, tier) for o in wire.OPNAMES])
+    for r in res_a:
+        judge_grid_a(ctx, judge, r)
+    ctx.extra["grid_a_calls"] = sum(len(r) for r in res_a)
+    ctx.extra["grid_a_s"] = round(time.time() - t0, 1)
+    res_a = None
+    judge.flush()
+    # ---- grid B
+    t1 = time.time()
+    res_b = _pool_map(ctx, run_grid_b_ctor, [(n, tier) for n in ALL_GRID_CTORS])
+    for name, r in zip(ALL_GRID_CTORS, res_b):
+        judge_grid_b(ctx, judge, name, r)
+    ctx.extra["grid_b_calls"] = sum(len(r) for r in res_b)
+    ctx.extra["grid_b_s"] = round(time.time() - t1, 1)
+    ctx.extra["constructors"] = len(ALL_GRID_CTORS) + len({c[0].split("(")[0] for c in const_cases()})
+    res_b = None
+    run_constants(ctx, judge)
+    judge.flush()
+    # ---- create_node histories (Impl/CreateNode.lean)
+    run_histories(ctx, 150 if tier == "quick" else 3000)
+    # ---- transformations
+    run_transformations(ctx, judge, 250 if tier == "quick" else 6000)
+    judge.flush()
+    ctx.extra["exhaustive"] = True
+    ctx.extra["node_types"] = len(wire.OPNAMES)
+    ctx.extra["universe"] = [n for n, _ in UNIVERSE]
+
+
+def replay(ctx, rep):
+    r = rep["replay"]
+    print("recorded:", {k: v for k, v in r.items() if k != "request"})
+    if "request" in r:
+        try:
+            print("lean:", ctx.lean_run("C03", [r["request"]])[0])
+        except common.LeanError as e:
+            print("driver does not run:", e)
+    judge = Judge(ctx)
+    g = r.get("grid")
+    if g == "A":
+        res = run_grid_a_op((r["op"], "thorough"))
+        judge_grid_a(ctx, judge, [x for x in res if [sort_name(s) for s in x[0]] == r["sorts"] and repr(x[1]) == r["payload"]])
+    elif g == "B":
+        res = run_grid_b_ctor((r["ctor"], "thorough"))
+        judge_grid_b(ctx, judge, r["ctor"], [x for x in res if [show_raw(a) for a in x[0]] == r["args"]
+                                             and extra_key(x[1]) == r["extra"]])
+    elif g == "constants":
+        run_constants(ctx, judge)
+    judge.flush()
+    for v in ctx.s_violations:
+        print("still fails (S):", v["what"])
+    for v in ctx.k_divergences:
+        print("still fails (K):", v["what"])
